@@ -1296,3 +1296,19 @@ def walk_closure(facts_bodies, closure_term, param_terms=None):
         oc = tuple(subst(x, m) if isinstance(x, tuple) else x for x in p.outcome)
         out.append(PathResult(evs, oc, p.env, p.blocks))
     return out, cb
+
+
+def context_events(body, path):
+    """events of a path whose guard context is complete on this path: events located in a break arm of a loop
+    that was summarised earlier on the path are left out (the loop's own walk analyses them with their guards)"""
+    out = []
+    exited = []
+    for i, e in enumerate(path.events):
+        if e.kind == "loopexit":
+            exited.append(e.a)
+            out.append((i, e))
+            continue
+        if exited and any(body.is_break_arm(h, e.blk) for h in exited):
+            continue
+        out.append((i, e))
+    return out
